@@ -485,4 +485,6 @@ func c09Gen(g *Gen) {
 	// production limits: an over-long message twice, a valid one in between
 	// production limits: an over-long message (index 0 of the table) repeated, valid and malformed ones in between
 	seqBig("seq-prod", c09Prod, "<13>1 t h a p s e ", "a", mm-1, "\u4e16zz", [][]byte{nil, valid[0], nil, malformed[4], malformed[4], nil})
+	// ---- 9. sequences through ONE composite parser with extractions that drop (kind 3, c09_composite.go) ----
+	c09GenX(g)
 }
